@@ -437,9 +437,9 @@ impl Prop for C05 {
     }
     fn rule(&self) -> String {
         "random cases: phonetic configuration drawn from a pool of 6 option sets (so that every warm context lives through hundreds of cases; memo sizes reached are reported under maxima); a pre-populated learned-selection store and user auto-correct file held fixed; \
-         0-6 prior words drawn from a vocabulary built to collide with the target (its prefixes, extensions with suffixes, case variants, other wrappings, the 35 base words (5 of them emoticons with dictionary hits)) each ended by finish / ctrl-backspace / commit of the pre-selected index; \
+         0-6 prior words drawn from a vocabulary built to collide with the target (its prefixes, extensions with suffixes, case variants, other wrappings, the 38 base words (5 of them emoticons with dictionary hits; two that two different learned bases split: korei = kor+ei = kore+i, sesher = sesh+er = seshe+r)) each ended by finish / ctrl-backspace / commit of the pre-selected index; \
          the target (wrapped/unwrapped known words and random strings) reached through an insert/backspace edit script with detours; a second context over another user directory with other options poked between events in half of the cases. \
-         In a quarter of the cases the final event is a backspace that deletes an extra character (a punctuation key with a selection byte, or a letter) in the warm context and an extra k in the reference. Reference: a context whose method object is re-created (update_engine to another layout and back) before each comparison types the target directly with the same final selection byte; \
+         In a quarter of the cases the final event is a backspace that deletes an extra character (a punctuation key with a selection byte, or a letter) in the warm context and an extra k in the reference; in a sixth the final event is a key that has no character (keypad Enter / Equals) with the chosen selection byte, pressed by the warm context after its script and by the reference after the target, one more k and a backspace. Reference: a context whose method object is re-created (update_engine to another layout and back) before each comparison types the target directly with the same final selection byte; \
          every mismatch is re-checked from scratch (all earlier cases of that warm context are replayed on a new context, then the case is judged against a truly new context) before it is reported, and one case in 10 (quick) / 6 (thorough) uses truly new contexts directly. \
          Across processes: every worker process first asks the same 8 questions (word -> rendering) of a context over the bundled data, after having created a context over a second, small data directory first, afterwards, or not at all (by shard number); the orchestrator compares the answers of all shards. \
          distinct_nontrivial = distinct (target, options, selection byte, edit script) tuples compared."
